@@ -135,15 +135,19 @@ pub fn slpp_write(g: Game, c: Comp) -> Out<Vec<u8>> {
 			Comp::Zstd => Some(arrow2::io::ipc::write::Compression::ZSTD),
 		},
 	};
+	// `opts: None` is a documented way to ask for "no compression": exercised for half of those calls
+	let pass_none = c == Comp::None && g.frames.len() % 2 == 0;
 	guard(|| {
 		let mut v = Vec::new();
-		peppi::io::peppi::write(&mut v, g, Some(&o)).map(|_| v).map_err(|e| e.to_string())
+		peppi::io::peppi::write(&mut v, g, if pass_none { None } else { Some(&o) }).map(|_| v).map_err(|e| e.to_string())
 	})
 }
 
 pub fn slpp_read(bytes: &[u8], skip: bool) -> Out<Game> {
 	let o = peppi::io::peppi::de::Opts { skip_frames: skip };
-	guard(|| peppi::io::peppi::read(Cursor::new(bytes), Some(&o)))
+	// `opts: None` means "read everything": exercised for half of the non-skip calls
+	let pass_none = !skip && (bytes.len() / 512) % 2 == 0;
+	guard(|| peppi::io::peppi::read(Cursor::new(bytes), if pass_none { None } else { Some(&o) }))
 }
 
 // ---------------------------------------------------------------------------------------------
